@@ -10,6 +10,16 @@ import (
 var _ = vReg("C03_ProofShapes", C03_ProofShapes)
 var _ = vReg("C03_ProofHistory", C03_ProofHistory)
 
+// c03l labels the two assertions inside the region of finding F22: Set accepts an empty (non-nil) value,
+// but the standard verifier rejects an existence proof whose value is empty, so neither the membership
+// proof of such a key nor a non-membership proof that uses it as a neighbour verifies.
+func c03l(empty bool, label string) string {
+	if empty {
+		return "F22:proof-involving-a-key-with-an-empty-value-does-not-verify"
+	}
+	return label
+}
+
 // c03Check produces and verifies the proof for pool key i in version v of h (it = that version's tree).
 func c03Check(h *vHist, it *ImmutableTree, m *vModel, root []byte, i int, tag string) {
 	n := h.p.n
@@ -26,7 +36,7 @@ func c03Check(h *vHist, it *ImmutableTree, m *vModel, root []byte, i int, tag st
 		vAssert(p.GetExist() != nil, tag+":kind-membership")
 		vAssert(vEqBytes(p.GetExist().Key, k), tag+":membership-key")
 		vAssert(vEqBytes(p.GetExist().Value, m.vals[i]), tag+":membership-value")
-		vAssert(ics23.VerifyMembership(ics23.IavlSpec, root, p, k, m.vals[i]), tag+":membership-verifies")
+		vAssert(ics23.VerifyMembership(ics23.IavlSpec, root, p, k, m.vals[i]), c03l(len(m.vals[i]) == 0, tag+":membership-verifies"))
 		// bound to the value
 		other := vBytes("othervalue", 1)
 		vAssume(vNot(vEqBytes(other, m.vals[i])))
@@ -48,10 +58,11 @@ func c03Check(h *vHist, it *ImmutableTree, m *vModel, root []byte, i int, tag st
 		ne := p.GetNonexist()
 		vAssert(ne != nil, tag+":kind-nonmembership")
 		vAssert(vEqBytes(ne.Key, k), tag+":nonmembership-key")
-		vAssert(ics23.VerifyNonMembership(ics23.IavlSpec, root, p, k), tag+":nonmembership-verifies")
 		// bracketed by the adjacent keys of the model
 		r := m.rankOf(i)
 		li, ri := m.nth(n, r-1), m.nth(n, r)
+		emptyNeighbour := (li >= 0 && len(m.vals[li]) == 0) || (ri >= 0 && len(m.vals[ri]) == 0)
+		vAssert(ics23.VerifyNonMembership(ics23.IavlSpec, root, p, k), c03l(emptyNeighbour, tag+":nonmembership-verifies"))
 		if li >= 0 {
 			vAssert(ne.Left != nil, tag+":left-neighbour-missing")
 			vAssert(vEqBytes(ne.Left.Key, h.p.keys[li]), tag+":left-neighbour")
